@@ -208,16 +208,19 @@ theorem disp_serves (evs : List DispEv) :
 
 /-! callHandler: the outbound connection table -/
 
-/-- with the id check every entry was announced under the id it is stored under, and is alive -/
+/-- with the id check every entry was announced under the id it is stored under, and is alive
+(`loose` — the connections `DisConnectTo` left open — is unconstrained: whatever id they report when
+they end, the removal finds an entry or skips) -/
 def ConnInv (s : ConnSt) : Prop := s.alive = true ∧ ∀ e ∈ s.tab, e.ann = e.key ∧ e.dead = false
 
 theorem connFind_some (k : Nat) (t : List ConnEntry) (e : ConnEntry) (h : connFind k t = some e) : e ∈ t ∧ e.key = k := by
   unfold connFind at h
   exact ⟨List.mem_of_find?_eq_some h, by simpa using List.find?_some h⟩
 
-theorem connDial_inv (s : ConnSt) (x a : Nat) (hs : Bool) (inv : ConnInv s) :
-    ConnInv (connDial Cfg.all s x a hs).1 ∧ (connDial Cfg.all s x a hs).2.isPanic = false ∧
-    (a = x → hs = true → ∃ i, (connDial Cfg.all s x a hs).2 = .ok i) := by
+theorem connDial_inv (s : ConnSt) (x a : Nat) (hs hon rf : Bool) (inv : ConnInv s) :
+    ConnInv (connDial Cfg.all s x a hs hon rf).1 ∧ (connDial Cfg.all s x a hs hon rf).2.isPanic = false ∧
+    (connDial Cfg.all s x a hs hon rf).1.left = s.left ∧ (connDial Cfg.all s x a hs hon rf).1.loose = s.loose ∧
+    (a = x → hs = true → rf = false → ∃ i, (connDial Cfg.all s x a hs hon rf).2 = .ok i) := by
   unfold connDial
   cases hf : connFind x s.tab with
   | some e =>
@@ -230,62 +233,229 @@ theorem connDial_inv (s : ConnSt) (x a : Nat) (hs : Bool) (inv : ConnInv s) :
     | true =>
       by_cases hax : a = x
       · subst hax
-        simp only [Bool.not_true, Bool.false_eq_true, if_false, all_callIdMatch, bne_self_eq_false, Bool.and_false]
-        refine ⟨⟨inv.1, ?_⟩, rfl, fun _ _ => ⟨_, rfl⟩⟩
-        intro e he
-        rcases List.mem_cons.mp he with he | he
-        · subst he; exact ⟨rfl, rfl⟩
-        · exact inv.2 e he
+        cases rf with
+        | true => simp; exact inv
+        | false =>
+          simp only [Bool.not_true, Bool.false_eq_true, if_false, all_callIdMatch, bne_self_eq_false, Bool.and_false]
+          refine ⟨⟨inv.1, ?_⟩, rfl, ?_⟩
+          · intro e he
+            rcases List.mem_cons.mp he with he | he
+            · subst he; exact ⟨rfl, rfl⟩
+            · exact inv.2 e he
+          · simp
       · have : (a != x) = true := by simpa using hax
         simp [this, hax]; exact inv
 
+/-- the removal branch, for ANY id (known, unknown, removed already), on any table whose entries
+satisfy the invariant: no panic, the remaining entries are entries of the table -/
+theorem connRemove_inv (s : ConnSt) (id : Nat) (inv : ConnInv s) :
+    ConnInv (connRemove Cfg.all s id).1 ∧ (connRemove Cfg.all s id).2.isPanic = false ∧
+    (connRemove Cfg.all s id).1.left = s.left := by
+  unfold connRemove
+  cases hf : connFind id s.tab with
+  | none => simp [all_callRemoveNil]; exact inv
+  | some f =>
+    refine ⟨⟨inv.1, ?_⟩, rfl, rfl⟩
+    intro g hg
+    exact inv.2 g (List.mem_filter.mp hg).1
+
+/-- marking the entries under one key dead and removing that key leaves entries of the old table only -/
+theorem connEndTab_inv (s : ConnSt) (e : ConnEntry) (inv : ConnInv s) (he : e ∈ s.tab) :
+    ConnInv (connEndTab Cfg.all s e).1 ∧ (connEndTab Cfg.all s e).2.isPanic = false ∧
+    (connEndTab Cfg.all s e).1.left = s.left := by
+  have hann : e.ann = e.key := (inv.2 e he).1
+  unfold connEndTab connRemove
+  simp only [hann]
+  cases hf : connFind e.key (connMarkDead e.key s.tab) with
+  | none => simp [all_callRemoveNil]; exact ⟨inv.1, by
+      -- cannot happen (e itself is found), but the statement holds anyway: no entry is left unmarked
+      intro g hg
+      unfold connFind at hf
+      have := List.find?_eq_none.mp hf
+      unfold connMarkDead at hg this
+      obtain ⟨g0, hg0, rfl⟩ := List.mem_map.mp hg
+      have h1 := this _ (List.mem_map.mpr ⟨g0, hg0, rfl⟩)
+      by_cases hk : g0.key == e.key
+      · simp [hk] at h1
+      · simp [hk]; exact inv.2 g0 hg0⟩
+  | some f =>
+    refine ⟨⟨inv.1, ?_⟩, rfl, rfl⟩
+    intro g hg
+    have hgm := List.mem_filter.mp hg
+    unfold connMarkDead at hgm
+    obtain ⟨g0, hg0, hgeq⟩ := List.mem_map.mp hgm.1
+    by_cases hk : g0.key == e.key
+    · simp only [hk, if_true] at hgeq
+      subst hgeq
+      simp at hgm hk
+      exact absurd hk hgm.2
+    · simp only [hk, Bool.false_eq_true, if_false] at hgeq
+      subst hgeq; exact inv.2 g0 hg0
+
+theorem connEndLoose_inv (s : ConnSt) (e : ConnEntry) (inv : ConnInv s) :
+    ConnInv (connEndLoose Cfg.all s e).1 ∧ (connEndLoose Cfg.all s e).2.isPanic = false ∧
+    (connEndLoose Cfg.all s e).1.left = s.left := by
+  unfold connEndLoose
+  exact connRemove_inv { s with loose := s.loose.erase e } e.ann ⟨inv.1, inv.2⟩
+
 theorem connStep_inv (s : ConnSt) (e : ConnEv) (inv : ConnInv s) :
-    ConnInv (connStep Cfg.all s e).1 ∧ (connStep Cfg.all s e).2.isPanic = false := by
-  cases e with
-  | dial x a hs =>
-    simp only [connStep, inv.1, Bool.not_true, Bool.false_eq_true, if_false]
-    exact ⟨(connDial_inv s x a hs inv).1, (connDial_inv s x a hs inv).2.1⟩
-  | req x =>
-    simp only [connStep, inv.1, Bool.not_true, Bool.false_eq_true, if_false]
-    exact ⟨(connDial_inv s x x true inv).1, (connDial_inv s x x true inv).2.1⟩
-  | hangup x =>
-    simp only [connStep, inv.1, Bool.not_true, Bool.false_eq_true, if_false]
-    cases hf : connFind x s.tab with
-    | none => exact ⟨inv, rfl⟩
-    | some e =>
-      have he := connFind_some x s.tab e hf
-      have hi := inv.2 e he.1
-      have hann : e.ann = x := by rw [hi.1, he.2]
-      simp only [hi.2, Bool.false_eq_true, if_false, hann, hf]
-      refine ⟨⟨rfl, ?_⟩, rfl⟩
-      intro f hfm
-      obtain ⟨g, hg, rfl⟩ := List.mem_map.mp hfm
-      have hgm := List.mem_filter.mp hg
-      have hne : (g.key == x) = false := by simpa using hgm.2
-      simp only [hne, Bool.false_eq_true, if_false]
-      exact inv.2 g hgm.1
+    ConnInv (connStep Cfg.all s e).1 ∧ (connStep Cfg.all s e).2.isPanic = false ∧
+    (e ≠ .leave → (connStep Cfg.all s e).1.left = s.left) := by
+  by_cases hl : s.left = true
+  · simp [connStep, hl]; exact inv
+  · have hl' : s.left = false := by simpa using hl
+    cases e with
+    | dial x a hs =>
+      simp only [connStep, inv.1, hl', Bool.not_true, Bool.or_false, Bool.false_eq_true, if_false]
+      have := connDial_inv s x a hs false false inv; exact ⟨this.1, this.2.1, fun _ => by rw [this.2.2.1, hl']⟩
+    | req x =>
+      simp only [connStep, inv.1, hl', Bool.not_true, Bool.or_false, Bool.false_eq_true, if_false]
+      have := connDial_inv s x x true true (connCutLoose s x) inv; exact ⟨this.1, this.2.1, fun _ => by rw [this.2.2.1, hl']⟩
+    | disc x =>
+      simp only [connStep, inv.1, hl', Bool.not_true, Bool.or_false, Bool.false_eq_true, if_false]
+      have := connRemove_inv s x inv; exact ⟨this.1, this.2.1, fun _ => by rw [this.2.2, hl']⟩
+    | leave =>
+      simp only [connStep, inv.1, hl', Bool.not_true, Bool.or_false, Bool.false_eq_true, if_false]
+      exact ⟨⟨rfl, inv.2⟩, rfl, fun h => absurd rfl h⟩
+    | hangup x =>
+      simp only [connStep, inv.1, hl', Bool.not_true, Bool.or_false, Bool.false_eq_true, if_false]
+      have loose : ConnInv (connViaLoose Cfg.all s x).1 ∧ (connViaLoose Cfg.all s x).2.isPanic = false ∧
+          (connViaLoose Cfg.all s x).1.left = s.left := by
+        unfold connViaLoose
+        cases s.loose.find? (fun (e : ConnEntry) => e.key == x) with
+        | none => exact ⟨inv, rfl, rfl⟩
+        | some e => exact connEndLoose_inv s e inv
+      simp only [connHangup]
+      cases hf : connFind x s.tab with
+      | none => exact ⟨loose.1, loose.2.1, fun _ => by rw [loose.2.2, hl']⟩
+      | some e =>
+        have he := connFind_some x s.tab e hf
+        have hd := (inv.2 e he.1).2
+        simp only [hd, Bool.false_eq_true, if_false]
+        have := connEndTab_inv s e inv he.1
+        exact ⟨this.1, this.2.1, fun _ => by rw [this.2.2, hl']⟩
+    | hangupOld x =>
+      simp only [connStep, inv.1, hl', Bool.not_true, Bool.or_false, Bool.false_eq_true, if_false]
+      simp only [connHangupOld]
+      cases s.loose.reverse.find? (fun e => e.key == x) with
+      | some e => have := connEndLoose_inv s e inv; exact ⟨this.1, this.2.1, fun _ => by rw [this.2.2, hl']⟩
+      | none =>
+        cases hf : connFind x s.tab with
+        | none => exact ⟨inv, rfl, fun _ => hl'⟩
+        | some e =>
+          have he := connFind_some x s.tab e hf
+          have hd := (inv.2 e he.1).2
+          simp only [hd, Bool.false_eq_true, if_false]
+          have := connEndTab_inv s e inv he.1
+          exact ⟨this.1, this.2.1, fun _ => by rw [this.2.2, hl']⟩
 
 theorem connRun_inv (evs : List ConnEv) : ∀ s, ConnInv s →
-    ConnInv (connRun Cfg.all s evs).1 ∧ ∀ o ∈ (connRun Cfg.all s evs).2, o.isPanic = false := by
+    ConnInv (connRun Cfg.all s evs).1 ∧ (∀ o ∈ (connRun Cfg.all s evs).2, o.isPanic = false) ∧
+    (ConnEv.leave ∉ evs → (connRun Cfg.all s evs).1.left = s.left) := by
   induction evs with
-  | nil => intro s inv; exact ⟨inv, by simp [connRun]⟩
+  | nil => intro s inv; exact ⟨inv, by simp [connRun], fun _ => rfl⟩
   | cons e r ih =>
     intro s inv
     simp only [connRun]
     have st := connStep_inv s e inv
     have := ih _ st.1
-    refine ⟨this.1, fun o h => ?_⟩
-    rcases List.mem_cons.mp h with h | h
-    · subst h; exact st.2
-    · exact this.2 o h
+    refine ⟨this.1, fun o h => ?_, fun hn => ?_⟩
+    · rcases List.mem_cons.mp h with h | h
+      · subst h; exact st.2.1
+      · exact this.2.1 o h
+    · have hne : e ≠ .leave := fun h => hn (by simp [h])
+      have hnr : ConnEv.leave ∉ r := fun h => hn (List.mem_cons_of_mem _ h)
+      rw [this.2.2 hnr, st.2.2 hne]
 
-/-- keeps serving: after any history of dials, announced ids and hang-ups a request to ANY member is
-served (over its live entry or a fresh dial), never handed to a dead entry -/
-theorem conn_serves (evs : List ConnEv) (x : Nat) :
+/-- keeps serving: after any history of dials, announced ids, hang-ups (of connections with or without
+an entry), `DisConnectTo` of any id — anything but the node's own `Leave` — a request to ANY member is
+served (over its live entry or a fresh dial), never handed to a dead entry; the one exception is a
+member the node ITSELF cut loose with `DisConnectTo` while that connection is still open (the member
+keeps one inbound connection per peer and refuses the second) -/
+theorem conn_serves (evs : List ConnEv) (x : Nat) (hl : ConnEv.leave ∉ evs)
+    (hcut : connCutLoose (connRun Cfg.all {} evs).1 x = false) :
     ∃ i, (connStep Cfg.all (connRun Cfg.all {} evs).1 (.req x)).2 = .ok i := by
-  have inv := (connRun_inv evs {} ⟨rfl, by simp⟩).1
-  simp only [connStep, inv.1, Bool.not_true, Bool.false_eq_true, if_false]
-  exact (connDial_inv _ x x true inv).2.2 rfl rfl
+  have h := connRun_inv evs {} ⟨rfl, by simp⟩
+  have inv := h.1
+  have hleft : (connRun Cfg.all {} evs).1.left = false := h.2.2 hl
+  simp only [connStep, inv.1, hleft, hcut, Bool.not_true, Bool.or_false, Bool.false_eq_true, if_false]
+  exact (connDial_inv _ x x true true false inv).2.2.2.2 rfl rfl rfl
+
+/-! histories a PEER can produce (dials answered with any id, hang-ups, requests — no `DisConnectTo`,
+no `Leave`): no connection is ever cut loose, so every member is served -/
+
+def ConnEv.peerOnly : ConnEv → Bool
+  | .disc _ => false
+  | .leave => false
+  | _ => true
+
+theorem connFind_markDead (k : Nat) (t : List ConnEntry) (f : ConnEntry)
+    (h : connFind k (connMarkDead k t) = some f) : f.dead = true := by
+  unfold connFind at h
+  have hm := List.mem_of_find?_eq_some h
+  have hk : f.key = k := by simpa using List.find?_some h
+  unfold connMarkDead at hm
+  obtain ⟨g, _, hg⟩ := List.mem_map.mp hm
+  by_cases hgk : g.key == k
+  · simp only [hgk, if_true] at hg; rw [← hg]
+  · simp only [hgk, Bool.false_eq_true, if_false] at hg
+    subst hg; simp [hk] at hgk
+
+theorem connStep_loose (s : ConnSt) (e : ConnEv) (inv : ConnInv s) (hp : e.peerOnly = true) (hlo : s.loose = []) :
+    (connStep Cfg.all s e).1.loose = [] := by
+  by_cases hl : s.left = true
+  · simp [connStep, hl, hlo]
+  · have hl' : s.left = false := by simpa using hl
+    have endTab : ∀ e ∈ s.tab, (connEndTab Cfg.all s e).1.loose = [] := by
+      intro e he
+      have hann : e.ann = e.key := (inv.2 e he).1
+      unfold connEndTab connRemove
+      simp only [hann]
+      cases hf : connFind e.key (connMarkDead e.key s.tab) with
+      | none => simp [hlo]
+      | some f => simp [connFind_markDead _ _ _ hf, hlo]
+    cases e with
+    | dial x a hs =>
+      simp only [connStep, inv.1, hl', Bool.not_true, Bool.or_false, Bool.false_eq_true, if_false]
+      rw [(connDial_inv s x a hs false false inv).2.2.2.1, hlo]
+    | req x =>
+      simp only [connStep, inv.1, hl', Bool.not_true, Bool.or_false, Bool.false_eq_true, if_false]
+      rw [(connDial_inv s x x true true (connCutLoose s x) inv).2.2.2.1, hlo]
+    | disc x => simp [ConnEv.peerOnly] at hp
+    | leave => simp [ConnEv.peerOnly] at hp
+    | hangup x =>
+      simp only [connStep, inv.1, hl', Bool.not_true, Bool.or_false, Bool.false_eq_true, if_false, connHangup]
+      have vl : (connViaLoose Cfg.all s x).1.loose = [] := by simp [connViaLoose, hlo]
+      cases hf : connFind x s.tab with
+      | none => exact vl
+      | some e =>
+        have he := connFind_some x s.tab e hf
+        simp only [(inv.2 e he.1).2, Bool.false_eq_true, if_false]
+        exact endTab e he.1
+    | hangupOld x =>
+      simp only [connStep, inv.1, hl', Bool.not_true, Bool.or_false, Bool.false_eq_true, if_false, connHangupOld, hlo,
+        List.reverse_nil, List.find?_nil]
+      cases hf : connFind x s.tab with
+      | none => exact hlo
+      | some e =>
+        have he := connFind_some x s.tab e hf
+        simp only [(inv.2 e he.1).2, Bool.false_eq_true, if_false]
+        exact endTab e he.1
+
+theorem connRun_loose (evs : List ConnEv) : ∀ s, ConnInv s → (∀ e ∈ evs, e.peerOnly = true) → s.loose = [] →
+    (connRun Cfg.all s evs).1.loose = [] := by
+  induction evs with
+  | nil => intro s _ _ h; exact h
+  | cons e r ih =>
+    intro s inv hp hlo
+    simp only [connRun]
+    exact ih _ (connStep_inv s e inv).1 (fun e' h => hp e' (List.mem_cons_of_mem _ h))
+      (connStep_loose s e inv (hp e List.mem_cons_self) hlo)
+
+theorem conn_serves_peer (evs : List ConnEv) (x : Nat) (hp : ∀ e ∈ evs, e.peerOnly = true) :
+    ∃ i, (connStep Cfg.all (connRun Cfg.all {} evs).1 (.req x)).2 = .ok i := by
+  refine conn_serves evs x (fun h => by simpa [ConnEv.peerOnly] using hp _ h) ?_
+  simp [connCutLoose, connRun_loose evs {} ⟨rfl, by simp⟩ hp rfl]
 
 theorem listenMembers_total (ls : List Nat) : ∀ k o, listenMembers Cfg.all ls k = .error o → o.isPanic = false := by
   induction ls with
